@@ -117,7 +117,49 @@ def make_scratch(prop, overlay_dirs):
             os.makedirs(os.path.dirname(h), exist_ok=True)
             _write_if_changed(h, "// no harness for this property at this hook point\n")
     missing = [u for u in used if u.endswith("verif_kani.rs") and u not in hooks]
+    _stamp_by_content(tree, prop)
     return tree, hooks, missing
+
+
+def _stamp_by_content(tree, prop):
+    """cargo decides freshness by comparing source mtimes with the time of the last build. The build output outlives the
+    scratch tree, so a file whose CONTENT changed while its mtime went backwards or stayed (a restored backup, `cp -p`,
+    rsync -a of a reverted file) would be taken for unchanged and a stale artifact of other code would be verified.
+    Here every file's mtime becomes a function of its content history: same content as at the previous run of this
+    property => the mtime it had then; anything else => now."""
+    import hashlib
+    import json
+    mpath = os.path.join(ROOT, ".cache", "kani-target", f"content-manifest-{prop}.json")
+    try:
+        with open(mpath) as f:
+            man = json.load(f)
+    except (OSError, ValueError):
+        man = {}
+    now = time.time()
+    new = {}
+    for dp, dn, fns in os.walk(tree):
+        dn[:] = [d for d in dn if d not in ("target", ".git")]
+        for fn in fns:
+            path = os.path.join(dp, fn)
+            if os.path.islink(path):
+                continue
+            rel = os.path.relpath(path, tree)
+            try:
+                with open(path, "rb") as f:
+                    sha = hashlib.sha1(f.read()).hexdigest()
+            except OSError:
+                continue
+            old = man.get(rel)
+            mt = old["mtime"] if old and old["sha"] == sha else now
+            new[rel] = {"sha": sha, "mtime": mt}
+            try:
+                os.utime(path, (mt, mt))
+            except OSError:
+                pass
+    os.makedirs(os.path.dirname(mpath), exist_ok=True)
+    with open(mpath + ".tmp", "w") as f:
+        json.dump(new, f)
+    os.replace(mpath + ".tmp", mpath)
 
 
 def _write_if_changed(dst, text, mtime=946684800):
